@@ -26,7 +26,7 @@ type killCase struct {
 	Launch    string `json:"launch"`    // cmd, runner, reattach
 	Behaviour string `json:"behaviour"` // prompt, busy, delay, ignore, frozen, crashed, failedhandshake
 	DelayMs   int    `json:"delay_ms"`
-	Pattern   string `json:"pattern"`   // single, repeated, concurrent, cleanup
+	Pattern   string `json:"pattern"` // single, repeated, concurrent, cleanup
 	N         int    `json:"n"`
 }
 
@@ -45,8 +45,8 @@ type killObs struct {
 }
 
 type startedPlugin struct {
-	pair   *vp.Pair   // the client used for Kill
-	orig   *vp.Pair   // for reattach: the client that launched the process
+	pair   *vp.Pair // the client used for Kill
+	orig   *vp.Pair // for reattach: the client that launched the process
 	pid    int
 	marker string
 }
